@@ -34,7 +34,7 @@ CONSTANTS
     Addrs,      \* address tokens (strings), "-" is never one of them
     KeyOrd,     \* sequence of validator-key tokens in the byte order of the concrete keys;
                 \* contains NoVal (the placeholder key) at its byte-order position
-    Genesis,    \* [keypers, thr, eon0, vals, forkOn, forkH]
+    Genesis,    \* [keypers, thr, eon0, vals, forkOn, forkH, dev]
     TallyMode   \* "open" | "closed"   (see header)
 
 NoVal   == "none"
@@ -121,6 +121,7 @@ InitState ==
      chain     |-> "ok",
      forkOn    |-> Genesis.forkOn,
      forkH     |-> Genesis.forkH,
+     dev       |-> Genesis.dev,
      ctMembers |-> [a \in Addrs |-> InSeq(Genesis.keypers, a)],
      ctCounts  |-> [a \in Addrs |-> 0],
      ctNonces  |-> [a \in Addrs |-> <<>>]]
@@ -333,7 +334,8 @@ EndBlock(s, h) ==
         nv == CurrentValidators(s1)
     IN [st |-> [s1 EXCEPT !.vals = nv, !.height = h],
         events |-> StartedEvents(s.configs, cfgs),
-        updates |-> Updates(s.vals, nv)]
+        (* DevMode: the application still tracks its validator set but hands no update to Tendermint *)
+        updates |-> IF s.dev THEN <<>> ELSE Updates(s.vals, nv)]
 
 (* app.Commit: CheckTxState.Reset keeps the members *)
 Commit(s) == [s EXCEPT !.ctCounts = [a \in Addrs |-> 0], !.ctNonces = [a \in Addrs |-> <<>>]]
